@@ -38,8 +38,8 @@ ASSUMPTIONS = [
     "a percentage tolerance is relative to 'the' reference value; where the statement leaves the reference open "
     "(target vs reduced target, student vs expected norm) the smallest candidate is used for members and the "
     "largest for non-members, so only cases decided under every reading are judged",
-    "members/non-members keep a factor 100 from the tolerance; vectors that must count as nonzero have norm >= 100 x "
-    "an absolute tolerance",
+    "members/non-members keep a factor 100 from the tolerance; vectors that must count as nonzero have norm >= "
+    "max(1e-6, 100 x an absolute tolerance); generated magnitudes below 1e-6 are snapped to 0",
     "numeric literals are parsed exactly (verified: repr(float) round-trips through the library parser)",
     "congruence and between are used with real scalars, the array comparers with vectors of length 2-4 and "
     "matrices up to 3x3 under MatrixGrader(max_array_dim=2); eigenvalue 0 only with absolute tolerances",
@@ -1185,7 +1185,7 @@ PARTS = [
     Part('congruence', 'hyp', muting(judge_congruence), strategy=lambda tier: congruence_specs(),
          budget={'quick': 700, 'thorough': 14000}),
     Part('between', 'hyp', muting(judge_between), strategy=lambda tier: between_specs(),
-         budget={'quick': 500, 'thorough': 8000}),
+         budget={'quick': 700, 'thorough': 10000}),
     Part('eigenvector', 'hyp', muting(judge_eigen), strategy=lambda tier: eigen_specs(),
          budget={'quick': 800, 'thorough': 16000}),
     Part('span', 'hyp', muting(judge_span), strategy=lambda tier: span_specs(),
